@@ -70,6 +70,23 @@ GreedyLines(lens, w) ==
                                      ELSE [lines |-> acc.lines + 1, cur |-> n],
                      [lines |-> 0, cur |-> 0], lens)
   IN st.lines
+\* the displayed lines of a wrapped label, as pairs <<length, number of spaces>>,
+\* found by walking the expected text and the shown text together (Unbroken holds)
+RECURSIVE ShownLines(_, _, _, _)
+ShownLines(expected, shown, len, spaces) ==
+  IF expected = <<>> THEN << <<len, spaces>> >>
+  ELSE IF Head(expected) = SPC /\ Len(shown) >= 2 /\ shown[1] = BS /\ shown[2] = BS
+       THEN << <<len, spaces>> >> \o ShownLines(Tail(expected), SubSeq(shown, 3, Len(shown)), 0, 0)
+       ELSE ShownLines(Tail(expected), Tail(shown), len + 1, spaces + (IF Head(expected) = SPC THEN 1 ELSE 0))
+\* word lengths of "f1, f2, f3": every family but the last carries its comma
+LabelWordLens(fams) == [i \in DOMAIN fams |-> Len(fams[i]) + (IF i < Len(fams) THEN 1 ELSE 0)]
+\* lines never exceed the width unless they hold a single word; no more lines than greedy wrapping
+LabelWrapOK(fams, shown, w) ==
+  LET want == JoinFams(fams)
+      lines == ShownLines(want, shown, 0, 0)
+  IN /\ \A i \in DOMAIN lines : lines[i][1] <= w \/ lines[i][2] = 0
+     /\ Len(lines) <= GreedyLines(LabelWordLens(fams), w)
+
 Sum(s) == FoldLeft(LAMBDA a, b : a + b, 0, s)
 LineLen(line) == Sum(line) + Len(line) - 1
 Flatten(lines) == FoldLeft(LAMBDA acc, ln : acc \o ln, <<>>, lines)
